@@ -12,6 +12,7 @@ import (
 	"go/constant"
 	"go/token"
 	"go/types"
+	"sort"
 
 	"golang.org/x/tools/go/ssa"
 )
@@ -24,6 +25,7 @@ const (
 	EvReturn                  // return of the outermost function
 	EvEnter                   // entering an inlined callee
 	EvLeave                   // leaving an inlined callee
+	EvLoop                    // a side-effect-free loop was stepped over (Config.SkipPureLoops); Instr is the header's first instruction
 )
 
 // env is a persistent (immutable, shared-tail) binding list: phi -> value, inlined call -> results.
@@ -71,6 +73,10 @@ type Config struct {
 	// Decide lets the client prune infeasible branches from facts on the path so far:
 	// +1 only the true branch is feasible, -1 only the false branch, 0 both.
 	Decide func(w *Walker, cond ssa.Value) int
+	// SkipPureLoops steps over a natural loop that has no effect (no call other than len/cap, no store, no map update,
+	// no send, no go/defer, no return or panic inside): the path continues at each exit edge with the values the loop
+	// defines left unresolved. Without it a loop aborts the path.
+	SkipPureLoops bool
 }
 
 // Walker carries the state of the path being built.
@@ -217,6 +223,33 @@ func (w *Walker) block(f *frame, e *env, b *ssa.BasicBlock, pred *ssa.BasicBlock
 		return fmt.Errorf("more than %d paths", w.cfg.MaxPaths)
 	}
 	key := visitKey{f, b}
+	if w.cfg.SkipPureLoops && w.onPath[key] == 0 {
+		if loop := pureLoop(b); loop != nil && (pred == nil || !loop[pred]) {
+			depth := 0
+			for p := f.parent; p != nil; p = p.parent {
+				depth++
+			}
+			m := len(w.events)
+			w.emit(Event{Kind: EvLoop, Instr: b.Instrs[0], Depth: depth, Fn: f.fn, frame: f, env: e})
+			var blocks []*ssa.BasicBlock
+			for x := range loop {
+				blocks = append(blocks, x)
+			}
+			sort.Slice(blocks, func(i, j int) bool { return blocks[i].Index < blocks[j].Index })
+			for _, x := range blocks {
+				for _, s := range x.Succs {
+					if loop[s] {
+						continue
+					}
+					if err := w.block(f, e, s, x, k); err != nil {
+						return err
+					}
+				}
+			}
+			w.events = w.events[:m]
+			return nil
+		}
+	}
 	if w.onPath[key] > 0 {
 		w.record(&Path{Aborted: fmt.Sprintf("loop through block %d of %s", b.Index, f.fn.Name())})
 		return nil
@@ -237,6 +270,56 @@ func (w *Walker) block(f *frame, e *env, b *ssa.BasicBlock, pred *ssa.BasicBlock
 		}
 	}
 	return w.instrs(f, ne, b, 0, k)
+}
+
+// pureLoop returns the natural loop headed by h if h is a loop header and the loop has no effect; nil otherwise.
+func pureLoop(h *ssa.BasicBlock) map[*ssa.BasicBlock]bool {
+	loop := map[*ssa.BasicBlock]bool{h: true}
+	var stack []*ssa.BasicBlock
+	for _, p := range h.Preds {
+		if h.Dominates(p) && !loop[p] {
+			loop[p] = true
+			stack = append(stack, p)
+		}
+		if p == h {
+			stack = append(stack, p)
+		}
+	}
+	if len(loop) == 1 && len(stack) == 0 {
+		return nil // no back edge
+	}
+	for len(stack) > 0 {
+		x := stack[len(stack)-1]
+		stack = stack[:len(stack)-1]
+		if x == h {
+			continue
+		}
+		for _, p := range x.Preds {
+			if !loop[p] {
+				loop[p] = true
+				stack = append(stack, p)
+			}
+		}
+	}
+	for x := range loop {
+		for _, ins := range x.Instrs {
+			switch y := ins.(type) {
+			case *ssa.Phi, *ssa.BinOp, *ssa.UnOp, *ssa.IndexAddr, *ssa.Index, *ssa.FieldAddr, *ssa.Field, *ssa.Slice, *ssa.Convert,
+				*ssa.ChangeType, *ssa.Extract, *ssa.Lookup, *ssa.Next, *ssa.If, *ssa.Jump, *ssa.DebugRef:
+				if u, ok := y.(*ssa.UnOp); ok && u.Op == token.ARROW {
+					return nil // channel receive
+				}
+			case *ssa.Call:
+				b, ok := y.Call.Value.(*ssa.Builtin)
+				if !ok || (b.Name() != "len" && b.Name() != "cap") {
+					return nil
+				}
+			default:
+				return nil
+			}
+		}
+	}
+	return loop
 }
 
 func boolConst(v ssa.Value) (bool, bool) {
